@@ -84,6 +84,8 @@ def gen_trace(seed, config, prop, tier):
                   "rse": r_op.random() < 0.5}
             if r_op.random() < 0.1:
                 st["rse"] = None  # keyword not given: library default
+            if r_op.random() < 0.06:
+                st["ne"] = None   # keyword not given: library default (4)
             steps.append(st)
             if op == "generate_mesh_pair":
                 steps.append(dict(st))
@@ -319,7 +321,8 @@ def run_trace(fs, trace, flog, preempt, collect_states=False):
                 if op == "generate_mesh":
                     pre = MO.snapshot(*sl.mesh)
                     an = RO.analyse(pre)
-                    kwargs = {"ne": st["ne"]}
+                    kwargs = {"ne": st["ne"]} if st.get("ne") is not None else {}
+                    st = dict(st, ne=st["ne"] if st.get("ne") is not None else 4)
                     if st.get("rse") is not None:
                         kwargs["replace_short_edges"] = st["rse"]
                     flag = True if st.get("rse") is None else st["rse"]
@@ -543,7 +546,7 @@ def simplifications(trace):
                 t["steps"][i]["rse"] = False
                 yield t
             for ne in (2, 3, 4):
-                if s["ne"] > ne:
+                if s.get("ne") is not None and s["ne"] > ne:
                     t = copy.deepcopy(trace)
                     t["steps"][i]["ne"] = ne
                     yield t
